@@ -331,17 +331,26 @@ def _run_peaksearcher(desc):
     from ImageD11 import labelimage, peaksearcher
     import io, contextlib
     sh = Shard()
-    shape = (2, 3) if tier == "quick" else (3, 3)
-    F = 2
+    for shape, F in ((((2, 3) if tier == "quick" else (3, 3)), 2), ((2, 2), 3 if tier == "quick" else 4)):
+        _peaksearcher_family(sh, shape, F, c, nch, labelimage, peaksearcher)
+    return sh
+
+
+def _peaksearcher_family(sh, shape, F, c, nch, labelimage, peaksearcher):
+    import io, contextlib
     n = shape[0] * shape[1]
     nimg = 1 << n
     imgs = [_bits_img(x, shape) for x in range(nimg)]
     inten = make_inten(F, shape)
-    thresholds = [0.5, 2.0 ** (F * n // 2) + 0.5]
+    thresholds = [0.5, 2.0 ** (F * n // 2) + 0.5] if F == 2 else [0.5, 2.0 ** (F * n // 3) + 0.5, 2.0 ** (2 * F * n // 3) + 0.5]
     for q in range(c, nimg ** F, nch):
-        digs = [q % nimg, q // nimg]
+        digs = []
+        x_ = q
+        for _ in range(F):
+            digs.append(x_ % nimg)
+            x_ //= nimg
         frames = np.array([imgs[d] for d in digs])
-        omegas = np.array([10.0, 10.5])
+        omegas = 10.0 + 0.5 * np.arange(F)
         sinks = {t: Sink() for t in thresholds}
         labims = {t: labelimage.labelimage(shape, fileout=sinks[t], sptfile=Sink()) for t in thresholds}
         with contextlib.redirect_stdout(io.StringIO()):
@@ -360,7 +369,6 @@ def _run_peaksearcher(desc):
             if t > 1 and vol.any() and (frames & ~vol).any():
                 sh.nontrivial += 1
     sh.sample(case, limit=1)
-    return sh
 
 
 def _bigframes():
@@ -465,9 +473,11 @@ def replay(case):
         compare(sh, case, rows, exp)
         return (not sh.violations), {"rows": rows, "expected": exp, "violations": sh.violations}
     if case["kind"] == "peaksearcher":
+        from ImageD11 import labelimage, peaksearcher
         nimg = 1 << (case["shape"][0] * case["shape"][1])
-        q = case["frames"][0] + nimg * case["frames"][1]
-        r = _run_peaksearcher(("peaksearcher", q, nimg ** 2, "quick" if case["shape"] == [2, 3] else "thorough"))
+        q = sum(d * nimg ** k_ for k_, d in enumerate(case["frames"]))
+        r = Shard()
+        _peaksearcher_family(r, tuple(case["shape"]), len(case["frames"]), q, nimg ** len(case["frames"]), labelimage, peaksearcher)
         v = [x for x in r.violations if x["case"]["threshold"] == case["threshold"]]
         return (not v), {"violations": v}
     if case["kind"] == "bigframe":
